@@ -99,6 +99,10 @@ StepOf(t) == BeginSend(t) \/ S1(t) \/ S2(t) \/ S3(t) \/ S4(t)
              \/ (t = "net" /\ (BeginCanSend \/ H1 \/ H2 \/ H3 \/ H4 \/ H5 \/ H6))
 Next == \E t \in Threads : StepOf(t)
 Spec == Init /\ [][Next]_vars
+(* liveness: with the transport and both threads making progress whenever they can (weak fairness on every step; the selector reports a    *)
+(* writable socket for as long as write interest is registered), everything that was queued is eventually on the wire                      *)
+FairSpec == Spec /\ WF_vars(Next)
+L_EverythingQueuedIsEventuallyWritten == <>((\A t \in Threads : th[t].todo = << >>) /\ wire = Flat(queued))
 
 (* ---- properties ---- *)
 Idle == \A t \in Threads : th[t].pc = "idle"
